@@ -16,7 +16,7 @@ from sa.callgraph import CallGraph
 from sa.cfg import implied
 from sa.report import Ctx
 from sa.srcmodel import AnalysisError, FunctionInfo, Program, dotted, norm, unparse, walk_no_nested
-from sa.util import calls_in, cfg_of, key, node_index, where
+from sa.util import canon_text, calls_in, cfg_of, key, node_index, where
 
 D = "_griffe.diff"
 
@@ -169,24 +169,25 @@ def run(prog: Program, ctx: Ctx) -> None:  # noqa: PLR0912,PLR0915
                    "`not x.is_alias`, handled for both AliasResolutionError and CyclicAliasError, or tabled with a reason")
     ad = AliasDeref(prog, cg)
     scope = [f for f in prog.functions.values() if f.module.name == D and f.cls is None]
+    # keys use canonical names (sa.util.canon_names: parameters p0.., other bound names v0.. by first binding), so renaming variables changes nothing
     TABLED = {
-        (f"{D}._member_incompatibilities", "old_obj.all_members"): "walk root: called with modules/classes from the non-alias arms of the dispatch (checked below)",
-        (f"{D}._member_incompatibilities", "new_obj.all_members"): "same",
-        (f"{D}._class_incompatibilities", "new_class.bases"): "called from the class arm of the dispatch, which is dominated by neither side being an alias",
-        (f"{D}._class_incompatibilities", "old_class.bases"): "same",
-        (f"{D}._function_incompatibilities", "new_function.parameters"): "function arm of the dispatch (neither side an alias)",
-        (f"{D}._function_incompatibilities", "old_function.parameters"): "same",
-        (f"{D}._function_incompatibilities", "old_function.returns"): "same",
-        (f"{D}._function_incompatibilities", "new_function.returns"): "same",
-        (f"{D}._returns_are_compatible", "old_function.returns"): "same",
-        (f"{D}._returns_are_compatible", "new_function.returns"): "same",
-        (f"{D}._attribute_incompatibilities", "old_attribute.value"): "attribute arm of the dispatch (neither side an alias)",
-        (f"{D}._attribute_incompatibilities", "new_attribute.value"): "same",
-        (f"{D}._member_incompatibilities", "old_member.is_module"): "short-circuited by `not old_member.is_alias and ...`",
+        (f"{D}._member_incompatibilities", "p0.all_members"): "walk root: called with modules/classes from the non-alias arms of the dispatch (checked below)",
+        (f"{D}._member_incompatibilities", "p1.all_members"): "same",
+        (f"{D}._class_incompatibilities", "p1.bases"): "called from the class arm of the dispatch, which is dominated by neither side being an alias",
+        (f"{D}._class_incompatibilities", "p0.bases"): "same",
+        (f"{D}._function_incompatibilities", "p1.parameters"): "function arm of the dispatch (neither side an alias)",
+        (f"{D}._function_incompatibilities", "p0.parameters"): "same",
+        (f"{D}._function_incompatibilities", "p0.returns"): "same",
+        (f"{D}._function_incompatibilities", "p1.returns"): "same",
+        (f"{D}._returns_are_compatible", "p0.returns"): "same",
+        (f"{D}._returns_are_compatible", "p1.returns"): "same",
+        (f"{D}._attribute_incompatibilities", "p0.value"): "attribute arm of the dispatch (neither side an alias)",
+        (f"{D}._attribute_incompatibilities", "p1.value"): "same",
+        (f"{D}._member_incompatibilities", "v1.is_module"): "short-circuited by `not old_member.is_alias and ...`",
     }
     sites = ad.scan(scope, TABLED)
     for st in sites:
-        ctx.ob("R4", key(st.fn, f"deref:{norm(st.node, 60)}"), st.status != "OPEN",
+        ctx.ob("R4", key(st.fn, f"deref:{canon_text(st.fn, st.node)}"), st.status != "OPEN",
                f"{st.status}: {st.reason}" if st.status != "OPEN" else st.reason + ": the error would abort find_breaking_changes", where(st.fn, st.node))
     ctx.expect_min("R4", len(sites), 8)
     # the tabled reasons rest on the dispatch: the kind arms of _type_based_yield are reached only when neither side is an alias
